@@ -366,7 +366,7 @@ func pathNontrivial(c pathCase) bool {
 func TestC16Random(t *testing.T) {
 	run := h.Begin("C16", "random", "rapid: data maps built from specs (nested map[string]interface{} up to depth 4, map[string]int / map[string]string with zero values, structs with nested struct / nil pointer / interface fields, nil and typed-nil entries at every level, int/int32/int64/float64/string/bool/time/slice leaves, keys colliding with builtin names, a runner that never got a map) x dotted paths of depth 0-4 over present and absent keys with '.' or '!.' at every position, optionally rooted at 'this'; oracle: an independent reference lookup over the Go values (type switches, no reflection on the implementation's path): null propagation, '!.' errors exactly on null, missing key/name -> null, typed nil == null, Go numbers -> exact numbers, strings/bools/times equal, maps/slices the very same object; cases that step through scalars, slices, pointers to structs or missing struct fields are not asserted; non-trivial: depth>=2, an absent key or typed nil before the last step, '!.', a struct or typed-map step, a zero-valued entry, a builtin-colliding key, 'this', no map; distinct by (data, path)")
 	defer run.End(t)
-	h.RapidSetup(h.N(10000, 800000), "c16rand")
+	h.RapidSetup(h.N(10000, 3000000), "c16rand")
 	rapid.Check(t, func(rt *rapid.T) {
 		var c pathCase
 		c.Data = map[string]spec.V{}
